@@ -681,3 +681,12 @@ def overfull_design_collapses(replay=None):
     return dict(evaluations=evals, distinct_nontrivial=evals, exhaustive=False, failures=failures,
                 rule="the recorded over-full design, best of 1 floorplan, seeds 0..9 of the random start", samples=[dict(design=OVERFULL, die="1x1")],
                 bound="10 seeds")
+
+
+@contract(P, canary=True)
+def canary_normalize_keeps_every_entry_strictly_inside(S):
+    """negative control: the limiting entry reaches its span, so 'strictly inside' must be refuted"""
+    x = vec(S, "x", 2)
+    span = vec(S, "s", 2, nonneg=True)
+    out = S.call(sa.normalize, x, span, [False, False])
+    S.ensure("canary.strictly_inside", sand(sabs(x[0]) < span[0], sabs(x[1]) < span[1]) if out.ok else True)
